@@ -246,20 +246,22 @@ theorem step_inv {ph : Phys} {p : Params ℝ} {n : Nat} {lo0 hi : ℝ} (st : Sta
   exact ⟨fun i v h => (key i v h).1, fun i v h => (key i v h).2⟩
 
 /-- the invariant along a trajectory for a non-increasing shelf profile `l` within `[lo0, hi]`:
-column 0 is within `[lo, hi]`, column `j+1` within `[l[j], hi]` -/
-theorem traj_inv {ph : Phys} {p : Params ℝ} {n : Nat} {lo0 hi : ℝ} (st : Stable ph p n lo0 hi)
+column 0 is within `[lo, hi]`, column `j+1` within `[l[j], hi]`. The side condition is required
+only for the source states of the steps before column `J` and may use the invariant of that
+state (size, admissibility, lower bound not below the shelf temperature of the step). -/
+theorem traj_inv_gen {ph : Phys} {p : Params ℝ} {n : Nat} {lo0 hi : ℝ} (st : Stable ph p n lo0 hi)
     (kCN : Nat) (l : List ℝ) (hchain : l.IsChain (fun a b => b ≤ a))
     (hl : ∀ x ∈ l, lo0 ≤ x ∧ x ≤ hi) (k : Nat) (s : State ℝ) (lo : ℝ) (hs : s.vials.size = n)
-    (hinv : AdmState ph lo hi s) (hhead : ∀ x ∈ l.head?, x ≤ lo)
-    (hside : ∀ (j : Nat) (sj : State ℝ) (T : ℝ), (trajList p kCN k l s)[j]? = some sj → l[j]? = some T →
-      SideCond ph p sj T) :
-    ∀ (j : Nat) (sj : State ℝ), (trajList p kCN k l s)[j]? = some sj →
+    (hinv : AdmState ph lo hi s) (hhead : ∀ x ∈ l.head?, x ≤ lo) (J : Nat)
+    (hside : ∀ (j : Nat) (sj : State ℝ) (T lo' : ℝ), (trajList p kCN k l s)[j]? = some sj → l[j]? = some T →
+      j < J → sj.vials.size = n → AdmState ph lo' hi sj → T ≤ lo' → SideCond ph p sj T) :
+    ∀ (j : Nat) (sj : State ℝ), (trajList p kCN k l s)[j]? = some sj → j ≤ J →
       sj.vials.size = n ∧ ∀ b : ℝ, (j = 0 → b = lo) → (∀ j' : Nat, j = j' + 1 → l[j']? = some b) →
         AdmState ph b hi sj := by
-  induction l generalizing k s lo with
+  induction l generalizing k s lo J with
   | nil => intro j sj h; simp [trajList] at h
   | cons T r ih =>
-    intro j sj hj
+    intro j sj hj hjJ
     cases j with
     | zero =>
       simp only [trajList, List.getElem?_cons_zero, Option.some.injEq] at hj
@@ -270,7 +272,8 @@ theorem traj_inv {ph : Phys} {p : Params ℝ} {n : Nat} {lo0 hi : ℝ} (st : Sta
       simp only [trajList, List.getElem?_cons_succ] at hj
       have hTb := hl T (by simp)
       have hTlo : T ≤ lo := hhead T (by simp)
-      have hsc : SideCond ph p s T := hside 0 s T (by simp [trajList]) (by simp)
+      have hsc : SideCond ph p s T :=
+        hside 0 s T lo (by simp [trajList]) (by simp) (by omega) hs hinv hTlo
       have hstep : AdmState ph T hi (step p kCN k T s) :=
         step_inv st (k == kCN) k T lo s hs hinv hTb.1 hTlo hTb.2 hsc
       have hsize : (step p kCN k T s).vials.size = n := by simp [step, hs]
@@ -286,12 +289,13 @@ theorem traj_inv {ph : Phys} {p : Params ℝ} {n : Nat} {lo0 hi : ℝ} (st : Sta
           simp only [List.head?_cons, Option.mem_def, Option.some.injEq] at hx
           subst hx
           exact (List.isChain_cons_cons.mp hchain).1
-      have hside' : ∀ (j : Nat) (sj : State ℝ) (T' : ℝ), (trajList p kCN (k + 1) r (step p kCN k T s))[j]? = some sj →
-          r[j]? = some T' → SideCond ph p sj T' := by
-        intro j sj T' h1 h2
-        exact hside (j + 1) sj T' (by simpa [trajList] using h1) (by simpa using h2)
+      have hside' : ∀ (j : Nat) (sj : State ℝ) (T' lo' : ℝ),
+          (trajList p kCN (k + 1) r (step p kCN k T s))[j]? = some sj → r[j]? = some T' → j < J - 1 →
+          sj.vials.size = n → AdmState ph lo' hi sj → T' ≤ lo' → SideCond ph p sj T' := by
+        intro j sj T' lo' h1 h2 h3 h4 h5 h6
+        exact hside (j + 1) sj T' lo' (by simpa [trajList] using h1) (by simpa using h2) (by omega) h4 h5 h6
       have := ih hchain' (fun x hx => hl x (by simp [hx])) (k + 1) (step p kCN k T s) T hsize
-        hstep hhead' hside' j' sj hj
+        hstep hhead' (J - 1) hside' j' sj hj (by omega)
       refine ⟨this.1, fun b _ hb => ?_⟩
       have hb' := hb j' rfl
       apply this.2 b
@@ -302,20 +306,25 @@ theorem traj_inv {ph : Phys} {p : Params ℝ} {n : Nat} {lo0 hi : ℝ} (st : Sta
         subst hj''
         simpa using hb'
 
-/-- **run invariant (partial)**: for a well-formed cooling program, inside the stable range
+/-- **run invariant, general form**: the conclusions of `run_admissible_partial` for the columns
+`j ≤ J`, requiring the side condition only for the source states of the steps before column `J`,
+where it may be derived from that state's invariant (size, admissibility, all temperatures in
+`[lo', hi]` with the shelf temperature of the step `≤ lo'`). All special cases below are
+instances. For a well-formed cooling program, inside the stable range
 (`lo0` = end temperature, `hi` ≥ initial vial temperature, start temperature and `T_eq_l`),
 vials starting no colder than the shelf, and the side condition at every step: in every
 recorded column every vial has `σ = 0` and no recorded nucleation, or `0 < σ < 1`, sits on the
 curve (hence below `T_eq_l`) and has a recorded nucleation; every temperature is at most `hi`,
 and at least the shelf temperature applied in the previous step (= the coldest so far, the
 profile never rises; column 0: at least the start temperature). -/
-theorem run_admissible_partial {ph : Phys} (inp : Inputs ℝ) (kCN : Nat) (hi : ℝ)
+theorem run_admissible_gen {ph : Phys} (inp : Inputs ℝ) (kCN : Nat) (hi : ℝ) (J : Nat)
     (hwf : Snow.C05.WF inp.oc inp.p.dt)
     (st : Stable ph inp.p inp.nVials inp.oc.stop hi)
     (hT0 : inp.oc.start ≤ inp.T0) (hT0hi : inp.T0 ≤ hi) (hstart : inp.oc.start ≤ hi)
-    (hside : ∀ (j : Nat) (sj : State ℝ) (T : ℝ), (runWith inp kCN).traj[j]? = some sj →
-      (runWith inp kCN).Tshelf[j]? = some T → SideCond ph inp.p sj T) :
-    ∀ (j : Nat) (sj : State ℝ), (runWith inp kCN).traj[j]? = some sj →
+    (hside : ∀ (j : Nat) (sj : State ℝ) (T lo' : ℝ), (runWith inp kCN).traj[j]? = some sj →
+      (runWith inp kCN).Tshelf[j]? = some T → j < J → sj.vials.size = inp.nVials →
+      AdmState ph lo' hi sj → T ≤ lo' → SideCond ph inp.p sj T) :
+    ∀ (j : Nat) (sj : State ℝ), (runWith inp kCN).traj[j]? = some sj → j ≤ J →
       ∀ (i : Nat) (v : Vial ℝ), sj.vials[i]? = some v →
       Adm ph v ∧ v.T ≤ hi ∧ (j = 0 → inp.oc.start ≤ v.T) ∧
       (∀ (j' : Nat) (T : ℝ), j = j' + 1 → (runWith inp kCN).Tshelf[j']? = some T → T ≤ v.T) := by
@@ -348,8 +357,8 @@ theorem run_admissible_partial {ph : Phys} (inp : Inputs ℝ) (kCN : Nat) (hi : 
     simp only [Option.mem_def, Option.some.injEq] at hx
     rw [← hx]
   have hsz : (init inp).vials.size = inp.nVials := by simp [init]
-  intro j sj hj i v hv
-  have := traj_inv st kCN _ hchain hl 0 (init inp) inp.oc.start hsz hinit hhead hside j sj hj
+  intro j sj hj hjJ i v hv
+  have := traj_inv_gen st kCN _ hchain hl 0 (init inp) inp.oc.start hsz hinit hhead J hside j sj hj hjJ
   cases j with
   | zero =>
     have hI := this.2 inp.oc.start (fun _ => rfl) (fun j' h => by omega)
@@ -379,6 +388,26 @@ theorem run_admissible_partial {ph : Phys} (inp : Inputs ℝ) (kCN : Nat) (hi : 
       simp only [Option.some.injEq] at hT'
       rw [← hT']
       exact (hI.bnd i v hv).1
+
+/-- **run invariant (partial)**: for a well-formed cooling program, inside the stable range
+(`lo0` = end temperature, `hi` ≥ initial vial temperature, start temperature and `T_eq_l`),
+vials starting no colder than the shelf, and the side condition at every step: in every
+recorded column every vial has `σ = 0` and no recorded nucleation, or `0 < σ < 1`, sits on the
+curve (hence below `T_eq_l`) and has a recorded nucleation; every temperature is at most `hi`,
+and at least the shelf temperature applied in the previous step (= the coldest so far, the
+profile never rises; column 0: at least the start temperature). -/
+theorem run_admissible_partial {ph : Phys} (inp : Inputs ℝ) (kCN : Nat) (hi : ℝ)
+    (hwf : Snow.C05.WF inp.oc inp.p.dt)
+    (st : Stable ph inp.p inp.nVials inp.oc.stop hi)
+    (hT0 : inp.oc.start ≤ inp.T0) (hT0hi : inp.T0 ≤ hi) (hstart : inp.oc.start ≤ hi)
+    (hside : ∀ (j : Nat) (sj : State ℝ) (T : ℝ), (runWith inp kCN).traj[j]? = some sj →
+      (runWith inp kCN).Tshelf[j]? = some T → SideCond ph inp.p sj T) :
+    ∀ (j : Nat) (sj : State ℝ), (runWith inp kCN).traj[j]? = some sj →
+      ∀ (i : Nat) (v : Vial ℝ), sj.vials[i]? = some v →
+      Adm ph v ∧ v.T ≤ hi ∧ (j = 0 → inp.oc.start ≤ v.T) ∧
+      (∀ (j' : Nat) (T : ℝ), j = j' + 1 → (runWith inp kCN).Tshelf[j']? = some T → T ≤ v.T) :=
+  fun j sj hj => run_admissible_gen inp kCN hi j hwf st hT0 hT0hi hstart
+    (fun j' sj' T _ h1 h2 _ _ _ _ => hside j' sj' T h1 h2) j sj hj (le_refl j)
 
 /-- **ice exactly from the recorded nucleation onwards** (one step): a vial that contains ice
 keeps its recorded nucleation time and temperature and keeps ice under the hypotheses of
@@ -764,21 +793,22 @@ and below `T_eq_l`; no vial is warmer than `hi` (any bound with `T_k_0, T_sh(0),
 in particular their maximum); no vial is colder than the COLDEST shelf temperature applied so
 far — for column `j ≥ 1` that is `T_shelf[j−1]`, which is `≤` every earlier shelf sample because
 the program never rises (C05); column 0 is not colder than the start temperature. -/
-theorem run_bounds_partial {ph : Phys} (inp : Inputs ℝ) (kCN : Nat) (hi : ℝ)
+theorem run_bounds_gen {ph : Phys} (inp : Inputs ℝ) (kCN : Nat) (hi : ℝ) (J : Nat)
     (hwf : Snow.C05.WF inp.oc inp.p.dt)
     (st : Stable ph inp.p inp.nVials inp.oc.stop hi)
     (hT0 : inp.oc.start ≤ inp.T0) (hT0hi : inp.T0 ≤ hi) (hstart : inp.oc.start ≤ hi)
-    (hside : ∀ (j : Nat) (sj : State ℝ) (T : ℝ), (runWith inp kCN).traj[j]? = some sj →
-      (runWith inp kCN).Tshelf[j]? = some T → SideCond ph inp.p sj T) :
-    ∀ (j : Nat) (sj : State ℝ), (runWith inp kCN).traj[j]? = some sj →
+    (hside : ∀ (j : Nat) (sj : State ℝ) (T lo' : ℝ), (runWith inp kCN).traj[j]? = some sj →
+      (runWith inp kCN).Tshelf[j]? = some T → j < J → sj.vials.size = inp.nVials →
+      AdmState ph lo' hi sj → T ≤ lo' → SideCond ph inp.p sj T) :
+    ∀ (j : Nat) (sj : State ℝ), (runWith inp kCN).traj[j]? = some sj → j ≤ J →
       ∀ (i : Nat) (v : Vial ℝ), sj.vials[i]? = some v →
       (0 ≤ v.sigma ∧ v.sigma < 1) ∧
       (v.sigma ≠ 0 → v.T = ph.curve v.sigma ∧ v.T < ph.TeqL) ∧
       v.T ≤ hi ∧ (j = 0 → inp.oc.start ≤ v.T) ∧
       (∀ (j' : Nat) (T : ℝ), j = j' + 1 → (runWith inp kCN).Tshelf[j']? = some T →
         T ≤ v.T ∧ ∀ (j'' : Nat) (T'' : ℝ), j'' ≤ j' → (runWith inp kCN).Tshelf[j'']? = some T'' → T ≤ T'') := by
-  intro j sj hj i v hv
-  obtain ⟨hA, hhi, h0, hlow⟩ := run_admissible_partial inp kCN hi hwf st hT0 hT0hi hstart hside j sj hj i v hv
+  intro j sj hj hjJ i v hv
+  obtain ⟨hA, hhi, h0, hlow⟩ := run_admissible_gen inp kCN hi J hwf st hT0 hT0hi hstart hside j sj hj hjJ i v hv
   have hTsh : (runWith inp kCN).Tshelf = profile inp.oc inp.p.dt := rfl
   have hchain : (profile inp.oc inp.p.dt).IsChain (fun a b => b ≤ a) :=
     (Snow.C05.profile_good inp.oc inp.p.dt hwf).1.imp (fun _ _ h => h.1)
@@ -795,6 +825,23 @@ theorem run_bounds_partial {ph : Phys} (inp : Inputs ℝ) (kCN : Nat) (hi : ℝ)
     rw [hTsh] at hT hT''
     obtain ⟨d, rfl⟩ : ∃ d, j' = j'' + d := ⟨j' - j'', by omega⟩
     exact chain_antitone _ hchain j'' d T'' T hT'' hT
+
+/-- `run_bounds_gen` with the side condition assumed at every step (PARTIAL) -/
+theorem run_bounds_partial {ph : Phys} (inp : Inputs ℝ) (kCN : Nat) (hi : ℝ)
+    (hwf : Snow.C05.WF inp.oc inp.p.dt)
+    (st : Stable ph inp.p inp.nVials inp.oc.stop hi)
+    (hT0 : inp.oc.start ≤ inp.T0) (hT0hi : inp.T0 ≤ hi) (hstart : inp.oc.start ≤ hi)
+    (hside : ∀ (j : Nat) (sj : State ℝ) (T : ℝ), (runWith inp kCN).traj[j]? = some sj →
+      (runWith inp kCN).Tshelf[j]? = some T → SideCond ph inp.p sj T) :
+    ∀ (j : Nat) (sj : State ℝ), (runWith inp kCN).traj[j]? = some sj →
+      ∀ (i : Nat) (v : Vial ℝ), sj.vials[i]? = some v →
+      (0 ≤ v.sigma ∧ v.sigma < 1) ∧
+      (v.sigma ≠ 0 → v.T = ph.curve v.sigma ∧ v.T < ph.TeqL) ∧
+      v.T ≤ hi ∧ (j = 0 → inp.oc.start ≤ v.T) ∧
+      (∀ (j' : Nat) (T : ℝ), j = j' + 1 → (runWith inp kCN).Tshelf[j']? = some T →
+        T ≤ v.T ∧ ∀ (j'' : Nat) (T'' : ℝ), j'' ≤ j' → (runWith inp kCN).Tshelf[j'']? = some T'' → T ≤ T'') :=
+  fun j sj hj => run_bounds_gen inp kCN hi j hwf st hT0 hT0hi hstart
+    (fun j' sj' T _ h1 h2 _ _ _ _ => hside j' sj' T h1 h2) j sj hj (le_refl j)
 
 /-! ### non-vacuity -/
 
@@ -898,6 +945,457 @@ theorem sideCond_witness :
   have := hb.2
   norm_num at this ⊢
   linarith
+
+/-! ### where the side condition is NOT needed -/
+
+/-- **unconditional up to and including the first column that contains ice**: if the columns
+before column `J` contain no ice (e.g. `J` = the first column with ice), the admissibility and
+bound clauses hold for all columns `j ≤ J` with NO side condition — the steps that produce them
+start from ice-free states. -/
+theorem run_admissible_until_first_nucleation {ph : Phys} (inp : Inputs ℝ) (kCN : Nat) (hi : ℝ) (J : Nat)
+    (hwf : Snow.C05.WF inp.oc inp.p.dt)
+    (st : Stable ph inp.p inp.nVials inp.oc.stop hi)
+    (hT0 : inp.oc.start ≤ inp.T0) (hT0hi : inp.T0 ≤ hi) (hstart : inp.oc.start ≤ hi)
+    (hliq : ∀ (j : Nat) (sj : State ℝ), (runWith inp kCN).traj[j]? = some sj → j < J →
+      ∀ (i : Nat) (v : Vial ℝ), sj.vials[i]? = some v → v.sigma = 0) :
+    ∀ (j : Nat) (sj : State ℝ), (runWith inp kCN).traj[j]? = some sj → j ≤ J →
+      ∀ (i : Nat) (v : Vial ℝ), sj.vials[i]? = some v →
+      (0 ≤ v.sigma ∧ v.sigma < 1) ∧
+      (v.sigma ≠ 0 → v.T = ph.curve v.sigma ∧ v.T < ph.TeqL) ∧
+      v.T ≤ hi ∧ (j = 0 → inp.oc.start ≤ v.T) ∧
+      (∀ (j' : Nat) (T : ℝ), j = j' + 1 → (runWith inp kCN).Tshelf[j']? = some T →
+        T ≤ v.T ∧ ∀ (j'' : Nat) (T'' : ℝ), j'' ≤ j' → (runWith inp kCN).Tshelf[j'']? = some T'' → T ≤ T'') :=
+  run_bounds_gen inp kCN hi J hwf st hT0 hT0hi hstart
+    (fun j sj T _ h1 _ h3 _ _ _ => sideCond_of_liquid ph inp.p sj T (hliq j sj h1 h3))
+
+/-- an ice-containing vial whose contacts (neighbours, shelf = surroundings) are all at or below
+`T_eq_l` cannot receive more heat in a step than its ice absorbs, under the STATIC condition
+`Δt·Hsum·(T_m − lo) ≤ m·λ(1−w_s)` (`lo` a lower bound of the vial's temperature) -/
+theorem side_of_contacts_below_liquidus {ph : Phys} {p : Params ℝ} {n : Nat} {lo0 hi : ℝ}
+    (st : Stable ph p n lo0 hi) (i : Nat) (hi' : i < n) (Ts : Array ℝ) (Tsh lo σ : ℝ)
+    (h0 : 0 < σ) (h1 : σ < 1) (hTi : Ts.getD i 0 = ph.curve σ) (hlo : lo ≤ ph.curve σ)
+    (hn : ∀ j ∈ p.nbrs.getD i [], lo ≤ Ts.getD j 0 ∧ Ts.getD j 0 ≤ ph.TeqL)
+    (hsh : lo ≤ Tsh ∧ Tsh ≤ ph.TeqL)
+    (hstat : p.dt * Hsum p i * (ph.T_m - lo) ≤ ph.m * (ph.lam * (1 - ph.w_s))) :
+    heatFlow p Ts Tsh Tsh i * p.dt ≤ σ * ph.m * (ph.lam * (1 - ph.w_s)) := by
+  have hv := st.valid
+  have hD := hv.D_pos
+  have hH := Hsum_nonneg p i (st.coeff i hi')
+  have hq := (heatFlow_bounds p Ts Tsh Tsh lo ph.TeqL i (st.coeff i hi') hn hsh hsh).2
+  rw [hTi] at hq
+  have ha : 0 < 1 - σ := by linarith
+  -- T_eq_l − curve σ = D σ/(1−σ)
+  have hX : ph.TeqL - ph.curve σ = ph.D * σ / (1 - σ) := by
+    unfold Phys.TeqL Phys.curve; field_simp; ring
+  -- D/(1−σ) ≤ T_m − lo
+  have hG : ph.D / (1 - σ) ≤ ph.T_m - lo := by
+    have : ph.curve σ = ph.T_m - ph.D / (1 - σ) := by unfold Phys.curve; ring
+    rw [this] at hlo; linarith
+  have hdt := st.dt_pos
+  have h2 : p.dt * Hsum p i * (ph.D / (1 - σ)) ≤ ph.m * (ph.lam * (1 - ph.w_s)) :=
+    le_trans (mul_le_mul_of_nonneg_left hG (mul_nonneg (le_of_lt hdt) hH)) hstat
+  have h3 : heatFlow p Ts Tsh Tsh i * p.dt ≤ Hsum p i * (ph.D * σ / (1 - σ)) * p.dt := by
+    rw [hX] at hq
+    exact mul_le_mul_of_nonneg_right hq (le_of_lt hdt)
+  have h4 : Hsum p i * (ph.D * σ / (1 - σ)) * p.dt = σ * (p.dt * Hsum p i * (ph.D / (1 - σ))) := by
+    field_simp
+  rw [h4] at h3
+  have h5 := mul_le_mul_of_nonneg_left h2 (le_of_lt h0)
+  calc heatFlow p Ts Tsh Tsh i * p.dt ≤ σ * (p.dt * Hsum p i * (ph.D / (1 - σ))) := h3
+    _ ≤ σ * (ph.m * (ph.lam * (1 - ph.w_s))) := h5
+    _ = σ * ph.m * (ph.lam * (1 - ph.w_s)) := by ring
+
+/-- the STATIC part of the sufficient condition -/
+def StaticSide (ph : Phys) (p : Params ℝ) (n : Nat) (lo0 : ℝ) : Prop :=
+  ∀ i, i < n → p.dt * Hsum p i * (ph.T_m - lo0) ≤ ph.m * (ph.lam * (1 - ph.w_s))
+
+/-- what REMAINS to be monitored once `StaticSide` holds: a warmed ice-containing vial has no
+contact (neighbour or shelf) warmer than `T_eq_l` -/
+def ContactsBelow (ph : Phys) (p : Params ℝ) (s : State ℝ) (Tsh : ℝ) : Prop :=
+  ∀ (i : Nat) (v : Vial ℝ), s.vials[i]? = some v → v.sigma ≠ 0 → 0 < heatFlow p (temps s) Tsh Tsh i →
+    Tsh ≤ ph.TeqL ∧ ∀ j ∈ p.nbrs.getD i [], (temps s).getD j 0 ≤ ph.TeqL
+
+/-- `SideCond` from the state invariant, `StaticSide` and `ContactsBelow` -/
+theorem sideCond_of_contacts {ph : Phys} {p : Params ℝ} {n : Nat} {lo0 hi : ℝ} (st : Stable ph p n lo0 hi)
+    (hstat : StaticSide ph p n lo0) (s : State ℝ) (Tsh lo : ℝ) (hs : s.vials.size = n)
+    (hinv : AdmState ph lo hi s) (hT1 : lo0 ≤ Tsh) (hT2 : Tsh ≤ lo)
+    (hc : ContactsBelow ph p s Tsh) : SideCond ph p s Tsh := by
+  intro i v hv hσ hq
+  have hi' : i < n := by
+    rw [← hs]
+    by_contra hcon
+    have : s.vials[i]? = none := Array.getElem?_eq_none (not_lt.mp hcon)
+    rw [this] at hv; exact absurd hv (by simp)
+  obtain ⟨h0, h1, hT, _⟩ := adm_solid (hinv.adm i v hv) hσ
+  obtain ⟨hcs, hcn⟩ := hc i v hv hσ hq
+  have hn : ∀ j ∈ p.nbrs.getD i [], Tsh ≤ (temps s).getD j 0 ∧ (temps s).getD j 0 ≤ ph.TeqL := by
+    intro j hj
+    have hjn : j < s.vials.size := by rw [hs]; exact st.nbr_lt i hi' j hj
+    have hj' : s.vials[j]? = some s.vials[j] := Array.getElem?_eq_getElem hjn
+    refine ⟨?_, hcn j hj⟩
+    rw [temps_getD s j _ 0 hj']
+    exact le_trans hT2 (hinv.bnd j _ hj').1
+  have hm : 0 ≤ ph.m * (ph.lam * (1 - ph.w_s)) := by
+    have := st.valid.m_pos; have := st.valid.lam_pos; have := st.valid.w_lt
+    have : 0 < 1 - ph.w_s := by linarith
+    positivity
+  have hstat' : p.dt * Hsum p i * (ph.T_m - Tsh) ≤ ph.m * (ph.lam * (1 - ph.w_s)) := by
+    have hH := Hsum_nonneg p i (st.coeff i hi')
+    have : p.dt * Hsum p i * (ph.T_m - Tsh) ≤ p.dt * Hsum p i * (ph.T_m - lo0) :=
+      mul_le_mul_of_nonneg_left (by linarith) (mul_nonneg (le_of_lt st.dt_pos) hH)
+    exact le_trans this (hstat i hi')
+  have := side_of_contacts_below_liquidus st i hi' (temps s) Tsh Tsh v.sigma h0 h1
+    (by rw [temps_getD s i v 0 hv, hT]) (by rw [← hT]; exact le_trans hT2 (hinv.bnd i v hv).1)
+    hn ⟨le_refl _, hcs⟩ hstat'
+  exact this
+
+/-- **run invariant with the weaker, interpretable monitored hypothesis**: under `StaticSide`
+(a static inequality of the inputs) it suffices that no warmed ice-containing vial has a contact
+above `T_eq_l` (`ContactsBelow`) — the only way the side condition can fail. -/
+theorem run_bounds_contacts_partial {ph : Phys} (inp : Inputs ℝ) (kCN : Nat) (hi : ℝ)
+    (hwf : Snow.C05.WF inp.oc inp.p.dt)
+    (st : Stable ph inp.p inp.nVials inp.oc.stop hi)
+    (hstat : StaticSide ph inp.p inp.nVials inp.oc.stop)
+    (hT0 : inp.oc.start ≤ inp.T0) (hT0hi : inp.T0 ≤ hi) (hstart : inp.oc.start ≤ hi)
+    (hc : ∀ (j : Nat) (sj : State ℝ) (T : ℝ), (runWith inp kCN).traj[j]? = some sj →
+      (runWith inp kCN).Tshelf[j]? = some T → ContactsBelow ph inp.p sj T) :
+    ∀ (j : Nat) (sj : State ℝ), (runWith inp kCN).traj[j]? = some sj →
+      ∀ (i : Nat) (v : Vial ℝ), sj.vials[i]? = some v →
+      (0 ≤ v.sigma ∧ v.sigma < 1) ∧
+      (v.sigma ≠ 0 → v.T = ph.curve v.sigma ∧ v.T < ph.TeqL) ∧
+      v.T ≤ hi ∧ (j = 0 → inp.oc.start ≤ v.T) ∧
+      (∀ (j' : Nat) (T : ℝ), j = j' + 1 → (runWith inp kCN).Tshelf[j']? = some T →
+        T ≤ v.T ∧ ∀ (j'' : Nat) (T'' : ℝ), j'' ≤ j' → (runWith inp kCN).Tshelf[j'']? = some T'' → T ≤ T'') := by
+  intro j sj hj
+  have hprof : ∀ (j : Nat) (T : ℝ), (runWith inp kCN).Tshelf[j]? = some T → inp.oc.stop ≤ T := by
+    intro j T hT
+    have : T ∈ profile inp.oc inp.p.dt := List.mem_of_getElem? hT
+    exact ((Snow.C05.profile_good inp.oc inp.p.dt hwf).2.1 T this).1
+  exact run_bounds_gen inp kCN hi j hwf st hT0 hT0hi hstart
+    (fun j' sj' T lo' h1 h2 _ h4 h5 h6 =>
+      sideCond_of_contacts st hstat sj' T lo' h4 h5 (hprof j' T h2) h6 (hc j' sj' T h1 h2)) j sj hj (le_refl j)
+
+/-- **unconditional for a process that starts at or below the liquidus** (`T_k_0 ≤ T_eq_l`,
+shelf start `≤ T_eq_l`, i.e. `hi = T_eq_l`) under `StaticSide`: every contact of every vial is
+then at or below `T_eq_l` in every column, so the side condition is a consequence of the
+invariant and NOTHING is monitored. -/
+theorem run_bounds_below_liquidus {ph : Phys} (inp : Inputs ℝ) (kCN : Nat)
+    (hwf : Snow.C05.WF inp.oc inp.p.dt)
+    (st : Stable ph inp.p inp.nVials inp.oc.stop ph.TeqL)
+    (hstat : StaticSide ph inp.p inp.nVials inp.oc.stop)
+    (hT0 : inp.oc.start ≤ inp.T0) (hT0hi : inp.T0 ≤ ph.TeqL) (hstart : inp.oc.start ≤ ph.TeqL) :
+    ∀ (j : Nat) (sj : State ℝ), (runWith inp kCN).traj[j]? = some sj →
+      ∀ (i : Nat) (v : Vial ℝ), sj.vials[i]? = some v →
+      (0 ≤ v.sigma ∧ v.sigma < 1) ∧
+      (v.sigma ≠ 0 → v.T = ph.curve v.sigma ∧ v.T < ph.TeqL) ∧
+      v.T ≤ ph.TeqL ∧ (j = 0 → inp.oc.start ≤ v.T) ∧
+      (∀ (j' : Nat) (T : ℝ), j = j' + 1 → (runWith inp kCN).Tshelf[j']? = some T →
+        T ≤ v.T ∧ ∀ (j'' : Nat) (T'' : ℝ), j'' ≤ j' → (runWith inp kCN).Tshelf[j'']? = some T'' → T ≤ T'') := by
+  intro j sj hj
+  have hprof : ∀ (j : Nat) (T : ℝ), (runWith inp kCN).Tshelf[j]? = some T →
+      inp.oc.stop ≤ T ∧ T ≤ ph.TeqL := by
+    intro j T hT
+    have : T ∈ profile inp.oc inp.p.dt := List.mem_of_getElem? hT
+    have hb := (Snow.C05.profile_good inp.oc inp.p.dt hwf).2.1 T this
+    exact ⟨hb.1, le_trans hb.2 hstart⟩
+  refine run_bounds_gen inp kCN ph.TeqL j hwf st hT0 hT0hi hstart ?_ j sj hj (le_refl j)
+  intro j' sj' T lo' _ h2 _ h4 h5 h6
+  apply sideCond_of_contacts st hstat sj' T lo' h4 h5 (hprof j' T h2).1 h6
+  intro i v hv _ _
+  refine ⟨(hprof j' T h2).2, fun jn hjn => ?_⟩
+  have hi' : i < inp.nVials := by
+    rw [← h4]
+    by_contra hcon
+    have : sj'.vials[i]? = none := Array.getElem?_eq_none (not_lt.mp hcon)
+    rw [this] at hv; exact absurd hv (by simp)
+  have hjn' : jn < sj'.vials.size := by rw [h4]; exact st.nbr_lt i hi' jn hjn
+  have hj' : sj'.vials[jn]? = some sj'.vials[jn] := Array.getElem?_eq_getElem hjn'
+  rw [temps_getD sj' jn _ 0 hj']
+  exact (h5.bnd jn _ hj').2
+
+/-- **unconditional for thermally uncoupled vials** (`k_int·A = 0`): a vial then exchanges heat
+only with shelf and surroundings, which are never warmer than the vial (lower-bound invariant),
+so no vial is ever warmed and the side condition is vacuous. -/
+theorem run_bounds_uncoupled {ph : Phys} (inp : Inputs ℝ) (kCN : Nat) (hi : ℝ)
+    (hwf : Snow.C05.WF inp.oc inp.p.dt)
+    (st : Stable ph inp.p inp.nVials inp.oc.stop hi)
+    (hk : inp.p.kInt * inp.p.A = 0)
+    (hT0 : inp.oc.start ≤ inp.T0) (hT0hi : inp.T0 ≤ hi) (hstart : inp.oc.start ≤ hi) :
+    ∀ (j : Nat) (sj : State ℝ), (runWith inp kCN).traj[j]? = some sj →
+      ∀ (i : Nat) (v : Vial ℝ), sj.vials[i]? = some v →
+      (0 ≤ v.sigma ∧ v.sigma < 1) ∧
+      (v.sigma ≠ 0 → v.T = ph.curve v.sigma ∧ v.T < ph.TeqL) ∧
+      v.T ≤ hi ∧ (j = 0 → inp.oc.start ≤ v.T) ∧
+      (∀ (j' : Nat) (T : ℝ), j = j' + 1 → (runWith inp kCN).Tshelf[j']? = some T →
+        T ≤ v.T ∧ ∀ (j'' : Nat) (T'' : ℝ), j'' ≤ j' → (runWith inp kCN).Tshelf[j'']? = some T'' → T ≤ T'') := by
+  intro j sj hj
+  refine run_bounds_gen inp kCN hi j hwf st hT0 hT0hi hstart ?_ j sj hj (le_refl j)
+  intro j' sj' T lo' _ _ _ h4 h5 h6 i v hv _ hq
+  exfalso
+  have hi' : i < inp.nVials := by
+    rw [← h4]
+    by_contra hcon
+    have : sj'.vials[i]? = none := Array.getElem?_eq_none (not_lt.mp hcon)
+    rw [this] at hv; exact absurd hv (by simp)
+  have hco := st.coeff i hi'
+  rw [heatFlow_eq] at hq
+  have hq0 : qPair inp.p (temps sj') i = 0 := by
+    unfold qPair
+    apply List.sum_eq_zero
+    intro x hx
+    obtain ⟨jn, _, rfl⟩ := List.mem_map.mp hx
+    rw [hk]; ring
+  have hTi : (temps sj').getD i 0 = v.T := temps_getD sj' i v 0 hv
+  have hle : T - v.T ≤ 0 := by have := (h5.bnd i v hv).1; linarith
+  rw [hq0, hTi] at hq
+  have e1 := mul_nonpos_of_nonneg_of_nonpos hco.ext hle
+  have e2 := mul_nonpos_of_nonneg_of_nonpos hco.shelf hle
+  linarith
+
+/-! ### the all-liquid phase: every vial is cooling -/
+
+/-- the liquid update of vial `i` as a function of the temperature vector and the shelf
+(= surroundings) temperature -/
+noncomputable def liqUpd (p : Params ℝ) (T : Array ℝ) (S : ℝ) (i : Nat) : ℝ :=
+  liquidTemp p.c p.dt (heatFlow p T S S i) (T.getD i 0)
+
+theorem qPair_diff (p : Params ℝ) (T T' : Array ℝ) (i : Nat) :
+    qPair p T' i - qPair p T i =
+      ((p.nbrs.getD i []).map fun j => p.kInt * p.A * (T'.getD j 0 - T.getD j 0)).sum
+        - ((p.nbrs.getD i []).length : ℝ) * (p.kInt * p.A) * (T'.getD i 0 - T.getD i 0) := by
+  unfold qPair
+  generalize p.nbrs.getD i [] = nb
+  induction nb with
+  | nil => simp
+  | cons a t ih =>
+    simp only [List.map_cons, List.sum_cons, List.length_cons] at ih ⊢
+    push_cast
+    linarith
+
+/-- **the liquid update is monotone** in the temperature vector and in the shelf temperature
+(inside the stable range the update matrix is entrywise non-negative) -/
+theorem liqUpd_mono {ph : Phys} {p : Params ℝ} {n : Nat} {lo0 hi : ℝ} (st : Stable ph p n lo0 hi)
+    (i : Nat) (hi' : i < n) (T T' : Array ℝ) (S S' : ℝ)
+    (hT : ∀ j, T.getD j 0 ≤ T'.getD j 0) (hS : S ≤ S') : liqUpd p T S i ≤ liqUpd p T' S' i := by
+  have hv := st.valid
+  have hco := st.coeff i hi'
+  have hH := Hsum_nonneg p i hco
+  have hhl : 0 < ph.m * ph.cpl := mul_pos hv.m_pos hv.cpl_pos
+  have hcfl : p.dt * Hsum p i ≤ ph.m * ph.cpl := by
+    have h1 := st.cfl i hi'
+    have h2 : ph.m * cpMin ph ≤ ph.m * ph.cpl :=
+      mul_le_mul_of_nonneg_left (min_le_left _ _) (le_of_lt hv.m_pos)
+    have h3 : 0 ≤ p.dt * Hsum p i := mul_nonneg (le_of_lt st.dt_pos) hH
+    linarith
+  have hsum : 0 ≤ ((p.nbrs.getD i []).map fun j => p.kInt * p.A * (T'.getD j 0 - T.getD j 0)).sum := by
+    apply List.sum_nonneg
+    intro x hx
+    obtain ⟨j, _, rfl⟩ := List.mem_map.mp hx
+    exact mul_nonneg hco.int (sub_nonneg.mpr (hT j))
+  have hd : heatFlow p T' S' S' i - heatFlow p T S S i =
+      ((p.nbrs.getD i []).map fun j => p.kInt * p.A * (T'.getD j 0 - T.getD j 0)).sum
+      + ((p.ext.getD i 0 : ℝ) * p.kExt * p.A + p.kShelf.getD i 0 * p.A) * (S' - S)
+      - Hsum p i * (T'.getD i 0 - T.getD i 0) := by
+    rw [heatFlow_eq, heatFlow_eq]
+    have := qPair_diff p T T' i
+    unfold Hsum
+    linarith
+  have hc : p.c.hl = ph.m * ph.cpl := by rw [st.consts]; rfl
+  unfold liqUpd liquidTemp
+  rw [hc]
+  have e : ∀ (q x : ℝ), x + q / (ph.m * ph.cpl) * p.dt = (ph.m * ph.cpl * x + q * p.dt) / (ph.m * ph.cpl) := by
+    intro q x
+    have hne : ph.m * ph.cpl ≠ 0 := ne_of_gt hhl
+    rw [eq_div_iff hne]
+    have : q / (ph.m * ph.cpl) * p.dt * (ph.m * ph.cpl) = q * p.dt := by
+      rw [div_mul_eq_mul_div, div_mul_eq_mul_div, mul_div_assoc, div_self hne, mul_one]
+    linarith
+  rw [e, e, div_le_div_iff_of_pos_right hhl]
+  have hTi := hT i
+  have hes : 0 ≤ ((p.ext.getD i 0 : ℝ) * p.kExt * p.A + p.kShelf.getD i 0 * p.A) * (S' - S) :=
+    mul_nonneg (add_nonneg hco.ext hco.shelf) (sub_nonneg.mpr hS)
+  have hdt := st.dt_pos
+  have key : 0 ≤ (ph.m * ph.cpl - p.dt * Hsum p i) * (T'.getD i 0 - T.getD i 0) :=
+    mul_nonneg (sub_nonneg.mpr hcfl) (sub_nonneg.mpr hTi)
+  nlinarith [mul_nonneg (le_of_lt hdt) hsum, mul_nonneg (le_of_lt hdt) hes]
+
+/-- a nucleation jump of a supercooled vial forms ice: `σ > 0` -/
+theorem sigmaJump_pos (ph : Phys) (hv : ph.Valid) (ii : InitIce) (Tn : ℝ) (hT : Tn < ph.TeqL) :
+    0 < sigmaJump ii ph.consts Tn := by
+  cases ii with
+  | direct => exact (sigmaDirect_spec ph hv Tn hT).1.2.1
+  | indirect =>
+    have hs : sigmaIndirect ph.consts Tn = (ph.TeqL - Tn) / (ph.D + ph.lam / ph.cpl * (1 - ph.w_s)) :=
+      sigmaIndirect_spec ph hv Tn
+    show 0 < sigmaIndirect ph.consts Tn
+    rw [hs]
+    have hD := hv.D_pos; have hl := hv.lam_pos; have hc := hv.cpl_pos
+    have hw : 0 < 1 - ph.w_s := by have := hv.w_lt; linarith
+    apply div_pos (by linarith)
+    positivity
+
+/-- a step between two ice-free states is the liquid update of every vial -/
+theorem liquid_step_temps {ph : Phys} {p : Params ℝ} {n : Nat} {lo0 hi : ℝ} (st : Stable ph p n lo0 hi)
+    (kCN k : Nat) (T : ℝ) (s : State ℝ)
+    (h0 : ∀ (i : Nat) (v : Vial ℝ), s.vials[i]? = some v → v.sigma = 0)
+    (h1 : ∀ (i : Nat) (v : Vial ℝ), (step p kCN k T s).vials[i]? = some v → v.sigma = 0)
+    (i : Nat) (v : Vial ℝ) (hv : s.vials[i]? = some v) :
+    (temps (step p kCN k T s)).getD i 0 = liqUpd p (temps s) T i := by
+  have hv' := step_getElem? p kCN k T s i v hv
+  rw [temps_getD _ i _ 0 hv']
+  have hσ : v.sigma = 0 := h0 i v hv
+  have hs' := h1 i _ hv'
+  have hTi : (temps s).getD i 0 = v.T := temps_getD s i v 0 hv
+  simp only [vialStep, zero_real] at hs' ⊢
+  rcases vialStep_cases p (timeAt p.dt k) (k == kCN) (anySolid s) v (heatFlow p (temps s) T T i)
+      (p.kb.getD i 0) ((diceOf p k T s).getD i 0) with h | h | h
+  · rw [h.2.2]; simp only [liqUpd, hTi]
+  · exfalso
+    obtain ⟨_, _, hc, hv2⟩ := h
+    rw [hv2] at hs'
+    simp only at hs'
+    have hTn : liquidTemp ph.consts p.dt (heatFlow p (temps s) T T i) v.T < ph.TeqL := by
+      have := of_decide_eq_true hc
+      rw [st.consts] at this; exact this
+    have := sigmaJump_pos ph st.valid p.initIce _ hTn
+    rw [st.consts] at hs'
+    linarith
+  · exfalso
+    have : isLiquid v = true := by simp [isLiquid_real, hσ]
+    rw [this] at h; exact absurd h.1 (by simp)
+
+theorem temps_size (s : State ℝ) : (temps s).size = s.vials.size := by simp [temps]
+
+/-- along an ice-free prefix of a trajectory with a non-increasing shelf profile, the liquid
+update of every vial stays at or below its current temperature -/
+theorem traj_cooling {ph : Phys} {p : Params ℝ} {n : Nat} {lo0 hi : ℝ} (st : Stable ph p n lo0 hi)
+    (kCN : Nat) (l : List ℝ) (hchain : l.IsChain (fun a b => b ≤ a)) (k : Nat) (s : State ℝ)
+    (hs : s.vials.size = n) (J : Nat)
+    (hliq : ∀ (j : Nat) (sj : State ℝ), (trajList p kCN k l s)[j]? = some sj → j < J →
+      ∀ (i : Nat) (v : Vial ℝ), sj.vials[i]? = some v → v.sigma = 0)
+    (hD : ∀ T ∈ l.head?, ∀ i, i < n → liqUpd p (temps s) T i ≤ (temps s).getD i 0) :
+    ∀ (j : Nat) (sj : State ℝ) (T : ℝ), (trajList p kCN k l s)[j]? = some sj → l[j]? = some T → j < J →
+      ∀ i, i < n → liqUpd p (temps sj) T i ≤ (temps sj).getD i 0 := by
+  induction l generalizing k s J with
+  | nil => intro j sj T h; simp [trajList] at h
+  | cons T0 r ih =>
+    intro j sj T hj hT hjJ
+    cases j with
+    | zero =>
+      simp only [trajList, List.getElem?_cons_zero, Option.some.injEq] at hj hT
+      subst hj; subst hT
+      exact hD T0 (by simp)
+    | succ j' =>
+      simp only [trajList, List.getElem?_cons_succ] at hj hT
+      have hsize : (step p kCN k T0 s).vials.size = n := by simp [step, hs]
+      have hl0 := hliq 0 s (by simp [trajList]) (by omega)
+      have hchain' : r.IsChain (fun a b => b ≤ a) := by
+        cases r with
+        | nil => exact List.isChain_nil
+        | cons a t => exact (List.isChain_cons_cons.mp hchain).2
+      have hliq' : ∀ (j : Nat) (sj : State ℝ), (trajList p kCN (k + 1) r (step p kCN k T0 s))[j]? = some sj →
+          j < J - 1 → ∀ (i : Nat) (v : Vial ℝ), sj.vials[i]? = some v → v.sigma = 0 := by
+        intro j sj h1 h2
+        exact hliq (j + 1) sj (by simpa [trajList] using h1) (by omega)
+      refine ih hchain' (k + 1) (step p kCN k T0 s) hsize (J - 1) hliq' ?_ j' sj T hj hT (by omega)
+      intro T1 hT1 i hi'
+      -- the next state is ice-free as well (it is column 1 and 1 ≤ j'+1 < J)
+      cases r with
+      | nil => simp at hT1
+      | cons a t =>
+        simp only [List.head?_cons, Option.mem_def, Option.some.injEq] at hT1
+        subst hT1
+        have hT10 : a ≤ T0 := (List.isChain_cons_cons.mp hchain).1
+        have hl1 := hliq' 0 (step p kCN k T0 s) (by simp [trajList]) (by omega)
+        have hstep : ∀ (i : Nat), i < n → (temps (step p kCN k T0 s)).getD i 0 = liqUpd p (temps s) T0 i := by
+          intro i hi
+          have hv : s.vials[i]? = some s.vials[i] := Array.getElem?_eq_getElem (by omega)
+          exact liquid_step_temps st kCN k T0 s hl0 hl1 i _ hv
+        have hle : ∀ j, (temps (step p kCN k T0 s)).getD j 0 ≤ (temps s).getD j 0 := by
+          intro j
+          by_cases hj : j < n
+          · rw [hstep j hj]; exact hD T0 (by simp) j hj
+          · have e1 : (temps (step p kCN k T0 s)).getD j 0 = 0 := by
+              simp [Array.getD_eq_getD_getElem?, temps_size, hsize, Array.getElem?_eq_none (by rw [temps_size, hsize]; omega : (temps (step p kCN k T0 s)).size ≤ j)]
+            have e2 : (temps s).getD j 0 = 0 := by
+              simp [Array.getD_eq_getD_getElem?, Array.getElem?_eq_none (by rw [temps_size, hs]; omega : (temps s).size ≤ j)]
+            rw [e1, e2]
+        calc liqUpd p (temps (step p kCN k T0 s)) a i ≤ liqUpd p (temps s) T0 i :=
+              liqUpd_mono st i hi' _ _ a T0 hle hT10
+          _ = (temps (step p kCN k T0 s)).getD i 0 := (hstep i hi').symm
+
+/-- **in the all-liquid phase every vial is cooling**: for a run with uniform `T_k_0` not below
+the shelf start, a non-rising shelf profile (C05) and the stable range, in every step whose
+source column and all earlier columns contain no ice, the net heat flow of EVERY vial is `≤ 0`
+(no vial is warmed), and its temperature does not rise in that step if it stays liquid. -/
+theorem allLiquid_monotone {ph : Phys} (inp : Inputs ℝ) (kCN : Nat) (hi : ℝ) (J : Nat)
+    (hwf : Snow.C05.WF inp.oc inp.p.dt)
+    (st : Stable ph inp.p inp.nVials inp.oc.stop hi)
+    (hT0 : inp.oc.start ≤ inp.T0)
+    (hliq : ∀ (j : Nat) (sj : State ℝ), (runWith inp kCN).traj[j]? = some sj → j < J →
+      ∀ (i : Nat) (v : Vial ℝ), sj.vials[i]? = some v → v.sigma = 0) :
+    ∀ (j : Nat) (sj : State ℝ) (T : ℝ), (runWith inp kCN).traj[j]? = some sj →
+      (runWith inp kCN).Tshelf[j]? = some T → j < J → ∀ i, i < inp.nVials →
+      heatFlow inp.p (temps sj) T T i ≤ 0 ∧ liqUpd inp.p (temps sj) T i ≤ (temps sj).getD i 0 := by
+  have hr : runWith inp kCN = ⟨nTimeSteps inp, timeVec (nTimeSteps inp) inp.p.dt, kCN,
+      profile inp.oc inp.p.dt,
+      (trajList inp.p kCN 0 (profile inp.oc inp.p.dt) (init inp)).toArray,
+      finalState inp.p kCN 0 (profile inp.oc inp.p.dt) (init inp)⟩ := by
+    simp only [runWith, loop_eq]
+    simp
+  rw [hr] at hliq ⊢
+  simp only [List.getElem?_toArray] at hliq ⊢
+  have hgood := Snow.C05.profile_good inp.oc inp.p.dt hwf
+  have hchain : (profile inp.oc inp.p.dt).IsChain (fun a b => b ≤ a) :=
+    hgood.1.imp (fun _ _ h => h.1)
+  have hsz : (init inp).vials.size = inp.nVials := by simp [init]
+  have hv := st.valid
+  have hhl : 0 < ph.m * ph.cpl := mul_pos hv.m_pos hv.cpl_pos
+  have hc : inp.p.c.hl = ph.m * ph.cpl := by rw [st.consts]; rfl
+  -- q ≤ 0 from "update ≤ current"
+  have hq_of : ∀ (Ts : Array ℝ) (T : ℝ) (i : Nat), liqUpd inp.p Ts T i ≤ Ts.getD i 0 →
+      heatFlow inp.p Ts T T i ≤ 0 := by
+    intro Ts T i h
+    unfold liqUpd liquidTemp at h
+    rw [hc] at h
+    have h2 : heatFlow inp.p Ts T T i / (ph.m * ph.cpl) * inp.p.dt ≤ 0 := by linarith
+    by_contra hcon
+    have hpos : 0 < heatFlow inp.p Ts T T i := not_le.mp hcon
+    have : 0 < heatFlow inp.p Ts T T i / (ph.m * ph.cpl) * inp.p.dt :=
+      mul_pos (div_pos hpos hhl) st.dt_pos
+    linarith
+  -- base: uniform initial field
+  have hbase : ∀ T ∈ (profile inp.oc inp.p.dt).head?, ∀ i, i < inp.nVials →
+      liqUpd inp.p (temps (init inp)) T i ≤ (temps (init inp)).getD i 0 := by
+    intro T hT i hi'
+    rw [hgood.2.2] at hT
+    simp only [Option.mem_def, Option.some.injEq] at hT
+    subst hT
+    have hT : ∀ j, j < inp.nVials → (temps (init inp)).getD j 0 = inp.T0 := by
+      intro j hj
+      simp [temps, init, Array.getD_eq_getD_getElem?, hj]
+    have hco := st.coeff i hi'
+    have hq : heatFlow inp.p (temps (init inp)) inp.oc.start inp.oc.start i ≤ 0 := by
+      rw [heatFlow_eq]
+      have hq0 : qPair inp.p (temps (init inp)) i = 0 := by
+        unfold qPair
+        apply List.sum_eq_zero
+        intro x hx
+        obtain ⟨jn, hjn, rfl⟩ := List.mem_map.mp hx
+        rw [hT jn (st.nbr_lt i hi' jn hjn), hT i hi']; ring
+      rw [hq0, hT i hi']
+      have hle : inp.oc.start - inp.T0 ≤ 0 := by linarith
+      have e1 := mul_nonpos_of_nonneg_of_nonpos hco.ext hle
+      have e2 := mul_nonpos_of_nonneg_of_nonpos hco.shelf hle
+      linarith
+    unfold liqUpd liquidTemp
+    rw [hc]
+    have : heatFlow inp.p (temps (init inp)) inp.oc.start inp.oc.start i / (ph.m * ph.cpl) * inp.p.dt ≤ 0 :=
+      mul_nonpos_of_nonpos_of_nonneg (div_nonpos_of_nonpos_of_nonneg hq (le_of_lt hhl)) (le_of_lt st.dt_pos)
+    linarith
+  intro j sj T hj hT hjJ i hi'
+  have := traj_cooling st kCN _ hchain 0 (init inp) hsz J hliq hbase j sj T hj hT hjJ i hi'
+  exact ⟨hq_of _ _ _ this, this⟩
 
 /-! ### non-vacuity on a run WITH ice (`Lemmas/FlakeExRun.lean`) -/
 
